@@ -217,6 +217,165 @@ fn judge(c: &Case, cls: &mut Classifier) -> Verdict {
     Ok(())
 }
 
+// ---------------------------------------------------------------- histories
+
+/// Several wallets stretched one after the other on one thread. "The seed depends only on the words and the
+/// normalised passphrase" also means: not on what was computed before. The wallets of a history are related
+/// so that careless keys of a cache collide: entropy||salt and phrase||passphrase concatenations that coincide
+/// for different (mnemonic, passphrase) pairs, the same passphrase under several mnemonics, the same mnemonic
+/// under several passphrases, and plain repeats.
+#[derive(Clone, Debug, Serialize, Deserialize)]
+pub struct HistCase {
+    pub family: String,
+    /// (phrase, passphrase) in call order
+    pub steps: Vec<(String, String)>,
+}
+
+fn ascii_pass(u: &mut U, max: usize) -> String {
+    let n = u.below(max + 1);
+    (0..n).map(|_| (0x21 + u.below(0x5e) as u8) as char).collect()
+}
+
+/// entropy of `n2` bytes whose first `w1` words are the phrase of `e1`
+fn extend_entropy(e1: &[u8], n2: usize, u: &mut U) -> Vec<u8> {
+    let idx = bip39::encode_indices(e1);
+    let mut bits: Vec<bool> = vec![];
+    for i in &idx {
+        for b in (0..11).rev() {
+            bits.push((i >> b) & 1 == 1);
+        }
+    }
+    while bits.len() < n2 * 8 {
+        bits.push(u.bool());
+    }
+    (0..n2).map(|k| (0..8).fold(0u8, |a, b| (a << 1) | bits[k * 8 + b] as u8)).collect()
+}
+
+fn gen_history(tape: Vec<u8>) -> HistCase {
+    let mut u = U::new(&tape);
+    let sizes = [16usize, 20, 24, 28, 32];
+    let fam = u.below(5);
+    let mut steps: Vec<(String, String)> = vec![];
+    let family = match fam {
+        0 => {
+            // entropy || "mnemonic" || passphrase coincide
+            let combos = [(16usize, 24usize), (16, 28), (16, 32), (20, 28), (20, 32), (24, 32)];
+            let (n1, n2) = combos[u.below(combos.len())];
+            let mut e2 = u.bytes(n2);
+            e2[n1..n1 + 8].copy_from_slice(b"mnemonic");
+            for b in e2[n1 + 8..].iter_mut() {
+                *b = 0x21 + (*b % 0x5e);
+            }
+            let p2 = ascii_pass(&mut u, 12);
+            let p1 = format!("{}mnemonic{p2}", String::from_utf8(e2[n1 + 8..].to_vec()).expect("ascii"));
+            steps.push((bip39::encode_phrase(&e2[..n1]), p1));
+            steps.push((bip39::encode_phrase(&e2), p2));
+            "entropy-salt-concatenation"
+        }
+        1 => {
+            // phrase || passphrase coincide: the shorter phrase is a prefix of the longer one
+            let i1 = u.below(4);
+            let i2 = i1 + 1 + u.below(4 - i1);
+            let e1 = u.bytes(sizes[i1]);
+            let e2 = extend_entropy(&e1, sizes[i2], &mut u);
+            let w1 = bip39::encode_words(&e1);
+            let w2 = bip39::encode_words(&e2);
+            assert_eq!(&w2[..w1.len()], &w1[..], "harness: prefix construction");
+            let p2 = ascii_pass(&mut u, 12);
+            let sep = if u.bool() { " " } else { "" };
+            let p1 = format!(" {}{sep}{p2}", w2[w1.len()..].join(" "));
+            let p1 = if sep.is_empty() { p1 } else { p1.trim_end().to_string() + &p2 };
+            steps.push((w1.join(" "), p1));
+            steps.push((w2.join(" "), p2));
+            "phrase-passphrase-concatenation"
+        }
+        2 => {
+            // the salt prefix inside the passphrase
+            let k = sizes[u.below(5)];
+            let e = u.bytes(k);
+            let p = ascii_pass(&mut u, 10);
+            let ph = bip39::encode_phrase(&e);
+            steps.push((ph.clone(), p.clone()));
+            steps.push((ph.clone(), format!("mnemonic{p}")));
+            steps.push((ph, format!("mnemonicmnemonic{p}")));
+            "salt-prefix-in-passphrase"
+        }
+        3 => {
+            // same passphrase, several mnemonics (also of equal length and sharing leading words)
+            let k = sizes[u.below(5)];
+            let e = u.bytes(k);
+            let mut e2 = e.clone();
+            let k = e2.len() - 1 - u.below(4);
+            e2[k] ^= 1 << u.below(8);
+            let k3 = sizes[u.below(5)];
+            let e3 = u.bytes(k3);
+            let (p, _) = gen_pass(&mut u);
+            for x in [&e, &e2, &e3] {
+                steps.push((bip39::encode_phrase(x), p.clone()));
+            }
+            "same-passphrase"
+        }
+        _ => {
+            // same mnemonic, several passphrases (a passphrase, a prefix of it, its NFKD-inequivalent neighbour)
+            let k = sizes[u.below(5)];
+            let e = u.bytes(k);
+            let ph = bip39::encode_phrase(&e);
+            let (p, _) = gen_pass(&mut u);
+            let shorter: String = p.chars().take(p.chars().count() / 2).collect();
+            steps.push((ph.clone(), p.clone()));
+            steps.push((ph.clone(), shorter));
+            steps.push((ph.clone(), format!("{p} ")));
+            steps.push((ph, String::new()));
+            "same-mnemonic"
+        }
+    };
+    // order and repeats: a permutation of the related wallets followed by a revisit of earlier ones
+    if u.bool() {
+        steps.reverse();
+    }
+    let revisit = 1 + u.below(2);
+    for _ in 0..revisit {
+        let s = steps[u.below(steps.len())].clone();
+        steps.push(s);
+    }
+    HistCase { family: family.to_string(), steps }
+}
+
+fn judge_history(c: &HistCase, cls: &mut Classifier) -> Verdict {
+    let mut distinct = std::collections::BTreeSet::new();
+    for (i, (phrase, pass)) in c.steps.iter().enumerate() {
+        let Ok(entropy) = bip39::decode_phrase(phrase) else {
+            return fail("valid phrase", phrase.clone(), "C02 history must hold valid phrases");
+        };
+        let canonical = bip39::encode_phrase(&entropy);
+        let normalised: String = pass.nfkd().collect();
+        let want = bip39::seed_from_normalised(&canonical, &normalised);
+        let before: Vec<String> = c.steps[..i].iter().map(|(p, w)| format!("({} words, \"{}\")", bip39::split_ascii_ws(p).len(), escape(w))).collect();
+        match seed_of(phrase, pass) {
+            Ok(Ok(s)) if s == want => {}
+            Ok(Ok(s)) => {
+                return fail(
+                    hex_lower(&want),
+                    hex_lower(&s),
+                    format!("step {i} of a {} history: seed of phrase {phrase:?} passphrase \"{}\" computed after {before:?} differs from PBKDF2 of its own words and passphrase", c.family, escape(pass)),
+                )
+            }
+            Ok(Err(e)) => return fail("seed", format!("Err({e})"), format!("step {i}: valid phrase refused: {phrase:?}")),
+            Err(p) => return fail("seed", p, format!("step {i}: seed computation panicked")),
+        }
+        distinct.insert((canonical, normalised));
+    }
+    cls.label(&format!("history/{}", c.family));
+    if distinct.len() >= 2 && c.steps.len() > distinct.len() {
+        cls.label("history-with-revisit");
+    }
+    if distinct.len() >= 2 {
+        cls.nontrivial(&c.steps);
+        cls.sample(&format!("history-{}", c.family), || json!({"family": c.family, "steps": c.steps.iter().map(|(p, w)| json!([p, escape(w)])).collect::<Vec<_>>()}));
+    }
+    Ok(())
+}
+
 /// NFKD-equivalence / non-equivalence against the hand-written table (independent of unicode-normalization).
 fn judge_pair(c: &PairCase, cls: &mut Classifier) -> Verdict {
     let Ok(entropy) = bip39::decode_phrase(&c.phrase) else {
@@ -301,7 +460,7 @@ fn judge_cli(c: &CliCase, cls: &mut Classifier) -> Verdict {
 }
 
 pub fn run(ctx: &mut Ctx) {
-    ctx.rule = "valid mnemonics of all five lengths in two random ASCII white-space layouts x passphrases {empty, ASCII, Latin precomposed, base+combining marks, full-width, compatibility signs/ligatures, Hangul, CJK/kana, astral (math alphanumerics, emoji with ZWJ/VS), mixtures, arbitrary scalars <= 64, passphrases of 120..2000 scalars, runs of 29..100 combining marks}; one mnemonic in twelve is built from the longest or the shortest words of the list (24 words: canonical phrase up to ~215 bytes / down to ~95). Oracle 1: PBKDF2-HMAC-SHA512 written out over hmac, P = reference-canonical phrase, S = 'mnemonic' + NFKD(passphrase). Oracle 2 (independent of unicode-normalization): the hand-written NFKD pair table (788 pairs) and arithmetic Hangul decomposition: seed(a) == seed(hand-decomposed a) == reference PBKDF2 over the hand-decomposed bytes; non-equivalent look-alikes give different seeds; two layouts of the same words give the same seed. CLI sample: `export` with passphrases carrying outer white space / NFKD-sensitive characters (flag and PASSWORD env) must print the reference-derived key. Non-trivial: passphrase not empty/'TREZOR' or length not 12/24; distinct by (words, normalised passphrase).".into();
+    ctx.rule = "valid mnemonics of all five lengths in two random ASCII white-space layouts x passphrases {empty, ASCII, Latin precomposed, base+combining marks, full-width, compatibility signs/ligatures, Hangul, CJK/kana, astral (math alphanumerics, emoji with ZWJ/VS), mixtures, arbitrary scalars <= 64, passphrases of 120..2000 scalars, runs of 29..100 combining marks}; one mnemonic in twelve is built from the longest or the shortest words of the list (24 words: canonical phrase up to ~215 bytes / down to ~95). Oracle 1: PBKDF2-HMAC-SHA512 written out over hmac, P = reference-canonical phrase, S = 'mnemonic' + NFKD(passphrase). Oracle 2 (independent of unicode-normalization): the hand-written NFKD pair table (788 pairs) and arithmetic Hangul decomposition: seed(a) == seed(hand-decomposed a) == reference PBKDF2 over the hand-decomposed bytes; non-equivalent look-alikes give different seeds; two layouts of the same words give the same seed. Histories (one thread, 3..6 consecutive seed computations, each compared with the reference): wallets related so that entropy||'mnemonic'||passphrase or phrase||passphrase concatenations coincide for different (mnemonic, passphrase) pairs, the salt prefix repeated inside the passphrase, one passphrase under neighbouring mnemonics, one mnemonic under related passphrases, with revisits. CLI sample: `export` with passphrases carrying outer white space / NFKD-sensitive characters (flag and PASSWORD env) must print the reference-derived key. Non-trivial: passphrase not empty/'TREZOR' or length not 12/24; distinct by (words, normalised passphrase).".into();
     ctx.assumptions = vec![
         "unicode-normalization is used as the NFKD primitive for generated passphrases; cross-checked by the hand-written table".into(),
         "hmac + sha2::Sha512 are correct".into(),
@@ -334,6 +493,11 @@ pub fn run(ctx: &mut Ctx) {
         }
     }
     ctx.run_cases("pairs", &pairs, judge_pair);
+    let nh = ctx.tier.pick(1500, 40_000);
+    ctx.run_prop("history", nh, || crate::gen::tape(160).prop_map(gen_history), judge_history);
+    for f in ["entropy-salt-concatenation", "phrase-passphrase-concatenation", "salt-prefix-in-passphrase", "same-passphrase", "same-mnemonic"] {
+        ctx.floor(&format!("history/{f}"), nh as u64, 0.1);
+    }
     ctx.exhaustive_parts.push("the whole hand-written NFKD pair table per sampled mnemonic".into());
     if crate::cli::global_cli().is_some() {
         let mut cc = vec![];
@@ -379,6 +543,7 @@ pub fn replay(sub: &str, case: &Value) -> Option<Verdict> {
     match sub {
         "seed" => Some(replay_as::<Case>(case, judge)),
         "pairs" => Some(replay_as::<PairCase>(case, judge_pair)),
+        "history" => Some(replay_as::<HistCase>(case, judge_history)),
         "cli-export" => Some(replay_as::<CliCase>(case, judge_cli)),
         _ => None,
     }
